@@ -1005,6 +1005,12 @@ func (d *driver) startAction() bool {
 			pl := pl
 			if !d.liveOf("poolupsert", pl) {
 				add(2, func() { d.startPoolUpsert(pl, d.rng.Intn(3), d.rng.Intn(2) == 0) })
+				// the Pool object is deleted through the API (its IPs stay; the pool is unsized from now on), read back first
+				add(1, func() {
+					gc, _ := d.serve("GET", "/v1/pool/"+pl, nil)
+					code, _ := d.serve("DELETE", "/v1/pool/"+pl, nil)
+					d.emit(M{"ev": "DeletePool", "pool": pl, "code": code, "getcode": gc})
+				})
 			}
 		}
 	}
@@ -1071,6 +1077,8 @@ func (d *driver) buildAPI() {
 	ws.Route(ws.POST("/ip").To(ctl.ReleaseIPs))
 	pc := api.PoolController{PoolLister: d.w.Plugin.PoolLister, Client: d.w.Store.Client(), LockPoolFunc: d.w.Plugin.LockDpPool, IPAM: d.w.Plugin.GetIpam()}
 	ws.Route(ws.POST("/pool").To(pc.CreateOrUpdate))
+	ws.Route(ws.DELETE("/pool/{name}").To(pc.Delete))
+	ws.Route(ws.GET("/pool/{name}").To(pc.Get))
 	c.Add(ws)
 	d.api = c
 }
